@@ -696,6 +696,22 @@ def P32():
     )
 
 
+def P33():
+    """A Gaussian weight: exp(-(x*x)) underflows to exactly 0.0 for |x| > ~27.3 although the expression is defined there."""
+    x, w, v, dt = V("x"), V("w"), V("v"), V("dt")
+    return Program(
+        id="P33-gaussian-weight",
+        state=["x", "w"],
+        control=["v"],
+        calibration=[],
+        update={"x": x + dt * v, "w": w * X.exp(C(0) - x * x) + dt},
+        process_noise={"v": 0.25},
+        sensors={"s": {"m": x + w}},
+        sensor_noise={"s": {"m": 0.5}},
+        note="exp of a large negative argument (underflow is a defined result)",
+    )
+
+
 def quick_programs():
     return [P1(), P3(), P8()]
 
@@ -706,7 +722,7 @@ def all_fixed():
 
 def catalogue():
     """Every fixed program, including the model-level-only ones (replay looks programs up by id here)."""
-    return all_fixed() + [P11(), P18(), P21(), P22(), P23(), P24(), P25(), P26(), P27(), P28(), P29(), P30(), P31(), P32()]
+    return all_fixed() + [P11(), P18(), P21(), P22(), P23(), P24(), P25(), P26(), P27(), P28(), P29(), P30(), P31(), P32(), P33()]
 
 
 def with_noise(p, process=None, sensor=None, pid=None):
